@@ -321,3 +321,61 @@ def _replay_wrapper_render(model, ob):
     finally:
         eng.template_libraries.pop("wrprobe_lib", None)
     return {"confirmed": False}
+
+
+# ================================================================================================ validate_params (the dispatch)
+# From the property ("the fast and the fallback validation paths agree" is about the two validators; THIS function only chooses):
+# exactly one validator is called - the fast one when the function object has a code object, the fallback otherwise - with the
+# function (resp. the stripped signature), the parameter list and the extra keyword mapping UNCHANGED; its (args, kwargs) is
+# returned unchanged; a TypeError of the validator leaves as a TypeError (with the tag's name in front), nothing else is caught.
+def has_code(f):
+    return ops.uf("function_has_code_object", FN.sort(), B)(f)
+
+
+def _hasattr(run, args, kwargs, node):
+    name = z3.simplify(run.coerce(args[1], TStr).t).as_string()
+    if name == "__code__":
+        return Val(c11.TBool, has_code(args[0].t))
+    if name == "co_varnames":
+        return Val(c11.TBool, z3.BoolVal(True))        # every code object has co_varnames (A-PY)
+    from pyvc.interp import EngineError
+    raise EngineError(f"hasattr(.., {name!r})")
+
+
+def _validator(which):
+    def f(run, args, kwargs, node):
+        n = run.ghost.get("validator_calls")
+        run.ghost["validator_calls"] = Val(TInt, (n.t if n is not None else z3.IntVal(0)) + 1)
+        run.ghost["validator_which"] = Val(TInt, z3.IntVal(which))
+        run.ghost["validator_args"] = list(args)
+        if run.choose(2, None) == 1:
+            raise PyRaise(ExcVal("TypeError", [Val(TStr, z3.FreshConst(S, "validator_message"))], site=f"validator {which} rejects"))
+        a, k = Val(VALS, z3.FreshConst(VALS.sort(), "va")), Val(KW, z3.FreshConst(KW.sort(), "vk"))
+        run.wf(k)
+        run.ghost["validator_result"] = VTuple([a, k])
+        return VTuple([a, k])
+    return f
+
+
+REG.stub(("getattr", "Function", "__code__"), lambda run, obj, node: Conc(("obj_kind", "code", obj)))
+
+
+def _vp_post(c):
+    a = c.ghost["validator_args"]
+    fast = has_code(c.old("func").t)
+    which = c.ghost["validator_which"].t
+    res = c.ghost["validator_result"].items
+    R = c["result"]
+    r_items = R.items if isinstance(R, VTuple) else None
+    same_res = z3.And(r_items[0].t == res[0].t, r_items[1].t == res[1].t) if r_items is not None else z3.BoolVal(False)
+    first = z3.If(fast, a[0].t == c.old("func").t if a[0].ty == FN else z3.BoolVal(False), a[0].t == c.old("validation_signature").t if a[0].ty == SIG else z3.BoolVal(False))
+    return z3.And(c.ghost["validator_calls"].t == 1, which == z3.If(fast, 1, 2), first,
+                  c.run.coerce(a[1], PARAMS).t == c.old("params").t, c.run.coerce(a[2], c11.TOpt(KW)).t == c.old("extra_kwargs").t, same_res)
+
+
+REG.contract(
+    f"{c11.MOD}:validate_params", prop=P, types={"func": FN, "validation_signature": SIG, "tag": Str, "params": PARAMS, "extra_kwargs": c11.Opt(KW)},
+    calls={"hasattr": _hasattr, "_validate_params_with_code": _validator(1), "_validate_params_with_signature": _validator(2)},
+    modifies=[], raises={"TypeError": None},
+    ensures={"exactly_one_validator_chosen_by_the_code_object_gets_the_arguments_unchanged_and_its_result_is_returned": _vp_post},
+)
